@@ -356,7 +356,8 @@ def handleOnConnection (cfg : Cfg) (k : Kernel) (fd : Nat) (l r : SockAddr) (s :
         match t.state with
         | .synSent =>
           if s.flags.syn && s.flags.ack then
-            let t' := { t with state := .established, rcvNxt := wadd s.seq 1, sndWnd := s.window }
+            let t0 := if cfg.fixHsReset then { t with egressSinceAck := 0, retxAttempts := 0 } else t
+            let t' := { t0 with state := .established, rcvNxt := wadd s.seq 1, sndWnd := s.window }
             let k1 := k.setSock fd { so with tcb := some t' }
             k1.emit l r { srcPort := l.port, dstPort := r.port, seq := t'.sndNxt, ack := t'.rcvNxt,
                           flags := { ack := true }, window := advWindow cfg.recvCap 0, payload := [] }
@@ -365,7 +366,8 @@ def handleOnConnection (cfg : Cfg) (k : Kernel) (fd : Nat) (l r : SockAddr) (s :
           if s.flags.ack && !s.flags.syn then
             if s.ack != t.sndNxt then k
             else
-              let k1 := k.setSock fd { so with tcb := some { t with state := .established, sndWnd := s.window } }
+              let t0 := if cfg.fixHsReset then { t with egressSinceAck := 0, retxAttempts := 0 } else t
+              let k1 := k.setSock fd { so with tcb := some { t0 with state := .established, sndWnd := s.window } }
               k1.pushToListener fd l
           else k
         | .closed => k
